@@ -153,6 +153,7 @@ def twin_oracle(ctx):
 def run(ctx):
     C.ensure_impl_path()
     stft.regenerate(ctx)
+    stft.regenerate_si(ctx)
     pr = C.proof_step(ctx)
     rng = ctx.rng
     cases = []
